@@ -973,6 +973,7 @@ def op_configs(ctx):
                                 xlayout=next_layout('deform-x'), dlayout=next_layout('deform-disp', 2),
                                 olayout=next_layout('deform-out'),
                                 aseed=rng.getrandbits(30)))
+    out.extend(theorem_op_cases(rng, 1 if ctx.quick else 6))
     return out
 
 
@@ -1087,21 +1088,263 @@ def run_ops(ctx, cases, with_model=True):
                 case['api'], case['sch'], case['dtype']), results['setup'][0], desc_of(case))
             continue
         conv, line = op_model_line(case)
+        # end-to-end stream: the model gets interval / shape / schemes / values / displacement
+        # only and computes grids and evaluation points itself
+        e2e_idx = {}
+        for tag, l2 in e2e_lines(case):
+            e2e_idx[tag] = len(lines)
+            lines.append(l2)
         if min(len(c) for c in case['coords']) < 2:
             # single-node axis: outside the model (n >= 2), reference oracle only
             ctx.hit('ops/single-node-axis')
-            batch.append((case, results, conv, None))
+            batch.append((case, results, conv, None, e2e_idx))
             continue
-        batch.append((case, results, conv, len(lines)))
+        batch.append((case, results, conv, len(lines), e2e_idx))
         lines.append(line)
     outs = core.run_driver('C15', lines) if with_model else None
-    for case, results, conv, k in batch:
+    for case, results, conv, k, e2e_idx in batch:
         check_interp_case(ctx, case, results, {conv: [outs[k]]} if (outs and k is not None) else {})
+        e2e_check(ctx, case, results, {t: outs[i] for t, i in e2e_idx.items()} if outs else {})
         if case.get('inplace_protocol'):
             limited_violation(ctx, 'resampling-inplace',
                               'Resampling(domain, range, interp)(x, out=y) :: in-place call protocol, '
                               'Resampling._call returns the raw array',
                               'raised ValueError: ' + case['inplace_protocol'], desc_of(case))
+
+
+# ---------------------------------------------------------------------------
+# end-to-end streams e2e/grid, e2e/resample, e2e/deform (round 4): the Lean model computes the
+# uniform grids (`uniformNode`), the range mesh (`resampling`) and the displaced points
+# (`deformedPoints` / `linearDeform`) itself; the oracle states the same from the space
+# specification alone (cell midpoints, x + v(x)), independent of the model AND of the points the
+# real code computed.
+
+def spec_coords(spec):
+    """independent statement of the grid of a space specification: the midpoints of the cells of
+    the uniform partition of [min, max] / the nodes given to nonuniform_partition"""
+    if spec['kind'] == 'uniform':
+        return [[pfr(lo) + (2 * k + 1) * (pfr(hi) - pfr(lo)) / (2 * n) for k in range(n)]
+                for lo, hi, n in zip(spec['min'], spec['max'], spec['shape'])]
+    return [[pfr(x) for x in c] for c in spec['coords']]
+
+
+def spec_str(spec):
+    if spec['kind'] == 'uniform':
+        return '|'.join('u:{}:{}:{}'.format(fs(pfr(lo)), fs(pfr(hi)), n)
+                        for lo, hi, n in zip(spec['min'], spec['max'], spec['shape']))
+    return '|'.join('c:' + ','.join(fs(pfr(x)) for x in c) for c in spec['coords'])
+
+
+def e2e_lines(case):
+    out = []
+    specs = [('domain', case['dom'])] + ([('range', case['ran'])] if case['api'] == 'resampling' else [])
+    for which, spec in specs:
+        if spec['kind'] != 'uniform':
+            continue
+        for j, (lo, hi, n) in enumerate(zip(spec['min'], spec['max'], spec['shape'])):
+            out.append((('grid', which, j), 'grid lo={} hi={} n={}'.format(fs(pfr(lo)), fs(pfr(hi)), n)))
+    if min(case['dom']['shape']) < 2 or case['dtype'].startswith('U'):
+        return out
+    if case['api'] == 'resampling':
+        out.append(('op', 'resample sch={} dom={} ran={} v={}'.format(
+            ','.join(case['sch']), spec_str(case['dom']), spec_str(case['ran']), ','.join(case['vals']))))
+    else:
+        out.append(('op', 'deform sch={} dom={} v={} disp={}'.format(
+            ','.join(case['sch']), spec_str(case['dom']), ','.join(case['vals']),
+            ';'.join(','.join(fs(pfr(t)) for t in row) for row in case['disp']))))
+    return out
+
+
+def affine_value(aff, pt):
+    re = pfr(aff['a0'][0]) + sum(pfr(b[0]) * x for b, x in zip(aff['b'], pt))
+    im = pfr(aff['a0'][1]) + sum(pfr(b[1]) * x for b, x in zip(aff['b'], pt))
+    return (re, im)
+
+
+def e2e_check(ctx, case, results, answers):
+    api = case['api']
+    dom = case['dom']
+    rc = dict(desc_of(case), conv='e2e')
+    real_coords = [[pfr(x) for x in c] for c in case['coords']]
+    # --- e2e/grid: the nodes the real spaces have vs cell midpoints (oracle) and `uniformNode`
+    specs = [('domain', dom, real_coords)]
+    if api == 'resampling':
+        specs.append(('range', case['ran'], [[pfr(x) for x in c] for c in case['pts']]))
+    for which, spec, real in specs:
+        if spec['kind'] != 'uniform':
+            continue
+        for j, (r, e) in enumerate(zip(real, spec_coords(spec))):
+            n = len(e)
+            ctx.hit('e2e/grid/' + ('n=1' if n == 1 else 'n=2' if n == 2 else 'n>2'))
+            ctx.case(('e2e-grid', which, n, str(e[0])), None)
+            if r != e:
+                ctx.violation('e2e grid uniform_discr n={} :: nodes are not the cell midpoints'.format(n),
+                              '{} axis {} of [{}, {}] with {} cells: nodes {} expected {}'.format(
+                                  which, j, spec['min'][j], spec['max'][j], n, [str(x) for x in r],
+                                  [str(x) for x in e]), rc)
+            ans = answers.get(('grid', which, j))
+            if ans is not None:
+                impl = 'ok c=' + ','.join(fs(x) for x in r)
+                if ans != impl:
+                    ctx.disagree(dict(rc, which=which, axis=j), impl, ans, stream='e2e/grid')
+    if min(dom['shape']) < 2 or case['dtype'].startswith('U'):
+        return
+    conv = 'mesh' if api == 'resampling' else 'array'
+    status, toks = results.get(conv, ('missing', None))
+    ans = answers.get('op')
+    if status != 'ok':
+        # reported by the operator stream; the model has an answer for every well-formed case
+        if ans is not None:
+            ctx.disagree(rc, status, ans, stream='e2e/' + api)
+        return
+    coords_o = spec_coords(dom)
+    dims = [len(c) for c in coords_o]
+    sch = case['sch']
+    numeric = not case['dtype'].startswith(('int', 'uint'))
+    if api == 'resampling':
+        ran_o = spec_coords(case['ran'])
+        pts = list(itertools.product(*ran_o))
+        ctx.hit('e2e/resample/dom-' + dom['kind'])
+        for j, (c, r) in enumerate(zip(coords_o, ran_o)):
+            if dom['kind'] == 'uniform':
+                ctx.hit('e2e/resample/axis-' + ('same' if len(r) == len(c) else
+                                                'coarsen' if len(r) < len(c) else 'refine'))
+    else:
+        gpts = list(itertools.product(*coords_o))
+        pts = [tuple(p[j] + pfr(case['disp'][j][k]) for j in range(len(dims))) for k, p in enumerate(gpts)]
+        ctx.hit('e2e/deform/' + ('zero-disp' if all(pfr(t) == 0 for row in case['disp'] for t in row)
+                                 else 'moved'))
+    inside = [all(c[0] <= x <= c[-1] for c, x in zip(coords_o, pt)) for pt in pts]
+    ctx.hit('e2e/{}/{}'.format('resample' if api == 'resampling' else 'deform',
+                               'all-inside-hull' if all(inside) else 'point-outside-hull'))
+    if numeric:
+        vals = [parse_c(t) for t in case['vals']]
+        scale = max([abs(a) + abs(b) for a, b in vals] + [Fr(1)])
+        tol = tol_for(case, scale)
+        expected = [ref_interp(coords_o, sch, vals, dims, pt) for pt in pts]
+    else:
+        tol = Fr(0)
+        if 'l' in sch:
+            return
+        expected = [case['vals'][ref_nearest_index(coords_o, pt, dims)] for pt in pts]
+    ctx.case(('e2e', api, sch, dom['kind'], case['dtype'], all(inside)), None)
+    key = 'e2e {} sch={} dom={} dtype={} :: '.format(api, sch, dom['kind'], case['dtype'])
+
+    def differs(tok, exp):
+        if not numeric:
+            return tok != exp
+        return tok == 'nonfinite' or not close(parse_c(tok), exp, tol)
+    # --- ORACLE: the interpolant of the data at the range cell midpoints / at x + v(x)
+    if len(toks) != len(pts):
+        ctx.violation(key + 'wrong number of entries', '{} for {} points'.format(len(toks), len(pts)), rc)
+        return
+    for pt, exp, tok in zip(pts, expected, toks):
+        if exp is not None and differs(tok, exp):
+            ctx.violation(key + ('values differ from the interpolant sampled at the range cell midpoints'
+                                 if api == 'resampling' else
+                                 'values differ from the interpolant at the displaced points x + v(x)'),
+                          'at point {} expected {} got {}'.format(
+                              [str(x) for x in pt], ctok(exp) if numeric else exp, tok),
+                          dict(rc, bad_point=[str(x) for x in pt]))
+            break
+    # --- ORACLES that instantiate the round-4 theorems on the real code
+    same_grid = (api == 'resampling' and spec_coords(case['ran']) == coords_o) or \
+        (api == 'deform' and all(pfr(t) == 0 for row in case['disp'] for t in row))
+    if same_grid:
+        ctx.hit('e2e/theorem/' + ('resampling_same_grid_identity' if api == 'resampling' else 'deform_zero_identity'))
+        for k, (tok, vt) in enumerate(zip(toks, case['vals'])):
+            if differs(tok, parse_c(vt) if numeric else vt):
+                ctx.violation(key + ('resampling onto the same grid is not the identity' if api == 'resampling'
+                                     else 'zero displacement does not return the template'),
+                              'entry {}: stored {} returned {}'.format(k, vt, tok), rc)
+                break
+    if numeric and case.get('affine_data') and set(sch) == {'l'}:
+        ctx.hit('e2e/theorem/' + ('resampling_affine_exact' if api == 'resampling' else 'deform_affine_exact'))
+        for pt, ins, tok in zip(pts, inside, toks):
+            if ins and differs(tok, affine_value(case['affine_data'], pt)):
+                ctx.violation(key + 'affine data not reproduced at a point inside the hull of the nodes',
+                              'at point {} expected {} got {}'.format(
+                                  [str(x) for x in pt], ctok(affine_value(case['affine_data'], pt)), tok),
+                              dict(rc, bad_point=[str(x) for x in pt]))
+                break
+    # --- correspondence with the end-to-end model
+    if ans is None:
+        return
+    if not ans.startswith('ok r='):
+        ctx.disagree(rc, 'ok', ans, stream='e2e/' + api)
+        return
+    mt = ans[len('ok r='):].split(',')
+    if len(mt) != len(toks):
+        ctx.disagree(rc, 'length {}'.format(len(toks)), 'length {}'.format(len(mt)), stream='e2e/' + api)
+        return
+    for k, (a, b) in enumerate(zip(toks, mt)):
+        same = (a == b)
+        if not same and numeric and tol > 0 and a != 'nonfinite':
+            same = close(parse_c(a), parse_c(b), tol)
+        if not same:
+            ctx.disagree(dict(rc, point=[str(x) for x in pts[k]]), 'entry {} = {}'.format(k, a),
+                         'entry {} = {}'.format(k, b), stream='e2e/' + api)
+            break
+
+
+def theorem_op_cases(rng, reps):
+    """operator cases that meet the hypotheses of the round-4 theorems: resampling onto the same
+    grid, linear resampling of affine data onto a coarser uniform grid, zero displacement,
+    displaced points inside the hull with affine data"""
+    out = []
+    for rep in range(reps):
+        for d in (1, 2, 3):
+            dt = ['float64', 'complex128', 'float32'][(rep + d) % 3]
+            for nonuni in (False, True):
+                # same grid, any scheme mix
+                sch = ''.join(rng.choice('ln') for _ in range(d))
+                dom, ran = gen_space_pair(rng, d, dt, nonuni)
+                size = int(np.prod(dom['shape']))
+                out.append(dict(kind='interp', api='resampling', sch=sch, dtype=dt, dom=dom, ran=dict(dom),
+                                vals=gen_values(rng, size, dt, distinct=True), single_string=False,
+                                aseed=rng.getrandbits(30)))
+            # affine data, all linear, coarser (or equal) uniform range grid
+            dom, ran = gen_space_pair(rng, d, dt, False)
+            coords = spec_coords(dom)
+            ran['shape'] = [max([m for m in range(1, n + 1)
+                                 if dyadic((pfr(hi) - pfr(lo)) / m / 2)] if rng.random() < 0.7 else [1])
+                            for n, lo, hi in zip(dom['shape'], dom['min'], dom['max'])]
+            cplx = dt.startswith('complex')
+            a0 = (Fr(rng.randint(-8, 8), 4), Fr(rng.randint(-8, 8), 4) if cplx else Fr(0))
+            b = [(Fr(rng.choice([-3, -2, -1, 1, 2, 3]), 2), Fr(rng.randint(-2, 2), 2) if cplx else Fr(0))
+                 for _ in range(d)]
+            aff = dict(a0=[frs(a0[0]), frs(a0[1])], b=[[frs(x), frs(y)] for x, y in b])
+            vals = [ctok(affine_value(aff, pt)) for pt in itertools.product(*coords)]
+            out.append(dict(kind='interp', api='resampling', sch='l' * d, dtype=dt, dom=dom, ran=ran,
+                            vals=vals, affine_data=aff, single_string=(rep % 2 == 0),
+                            aseed=rng.getrandbits(30)))
+            # linear_deform: zero displacement (any scheme mix) and affine data moved inside the hull
+            rdt = 'float64' if rep % 2 == 0 else 'float32'
+            dom, _ = gen_space_pair(rng, d, rdt, False)
+            size = int(np.prod(dom['shape']))
+            sch = ''.join(rng.choice('ln') for _ in range(d))
+            out.append(dict(kind='interp', api='deform', sch=sch, dtype=rdt, dom=dom,
+                            disp=[['0'] * size for _ in range(d)],
+                            vals=gen_values(rng, size, rdt, distinct=True), single_string=False,
+                            use_out=(rep % 2 == 1), aseed=rng.getrandbits(30)))
+            dom, _ = gen_space_pair(rng, d, 'float64', False)
+            coords = spec_coords(dom)
+            gpts = list(itertools.product(*coords))
+            disp = [[] for _ in range(d)]
+            for pt in gpts:
+                for j in range(d):
+                    c = coords[j]
+                    h = c[1] - c[0]
+                    t = pt[j] + h * Fr(rng.randint(-8, 8), 4)
+                    t = min(max(t, c[0]), c[-1])
+                    disp[j].append(frs(t - pt[j]))
+            aff = dict(a0=[frs(Fr(rng.randint(-8, 8), 4)), '0'],
+                       b=[[frs(Fr(rng.choice([-3, -2, -1, 1, 2, 3]), 2)), '0'] for _ in range(d)])
+            vals = [ctok(affine_value(aff, pt)) for pt in gpts]
+            out.append(dict(kind='interp', api='deform', sch='l' * d, dtype='float64', dom=dom, disp=disp,
+                            vals=vals, affine_data=aff, single_string=(rep % 2 == 0), use_out=False,
+                            aseed=rng.getrandbits(30)))
+    return out
 
 
 # ---------------------------------------------------------------------------
@@ -2243,7 +2486,13 @@ MODEL_BRANCHES = ['axis/{}/{}'.format(s_, b) for s_ in 'ln' for b in ('lo', 'hi'
     ['retform/grid/' + f for f in ('bcast-full', 'bcast-partial', 'const', 'lead1d')] + \
     ['sample-tie/{}/{}'.format(k, c) for k in ('oopOnly', 'dual', 'ipOnly')
      for c in ('element', 'mesh', 'mesh+out', 'array', 'array+out', 'array-flat', 'array-flat+out', 'point')] + \
-    ['input/accepted', 'input/rejected']
+    ['input/accepted', 'input/rejected'] + \
+    ['e2e/grid/' + b for b in ('n=1', 'n=2', 'n>2')] + \
+    ['e2e/resample/' + b for b in ('dom-uniform', 'dom-nonuniform', 'axis-same', 'axis-coarsen', 'axis-refine',
+                                   'all-inside-hull', 'point-outside-hull')] + \
+    ['e2e/deform/' + b for b in ('zero-disp', 'moved', 'all-inside-hull', 'point-outside-hull')] + \
+    ['e2e/theorem/' + b for b in ('resampling_same_grid_identity', 'resampling_affine_exact',
+                                  'deform_zero_identity', 'deform_affine_exact')]
 
 
 LAYOUT_BRANCHES = ['layout/{}/{}'.format(e, l) for e in
